@@ -298,7 +298,10 @@ class RuleSet:
             for i in m:
                 rule = self.rules[i]
                 subs = _process_match(rule, syms)
-                if subs is not None:
+                # The net only sees the preorder sequence of heads, which forgets
+                # arities (and whether a term is a list or a call to ``list``), so a
+                # candidate must still be checked against the pattern itself.
+                if subs is not None and _instantiates(rule.lhs, rule.vars, subs, term):
                     yield rule, subs
 
     def _rewrite(self, term):
@@ -395,7 +398,7 @@ def _match(S, N):
         except TypeError:
             pass
         n = N.edges.get(VAR, None)
-        if n:
+        if n and S.current is not END:
             restore_state_flag = False
             matches = matches + (S.term,)
             S.skip()
@@ -407,6 +410,28 @@ def _match(S, N):
             restore_state_flag = True
         except Exception:
             return
+
+
+def _instantiates(pattern, vars, subs, term):
+    """Is ``term`` equal to ``pattern`` with its variables replaced by ``subs``?"""
+    if istask(pattern):
+        return (
+            istask(term)
+            and len(term) == len(pattern)
+            and term[0] == pattern[0]
+            and all(
+                _instantiates(p, vars, subs, t) for p, t in zip(pattern[1:], term[1:])
+            )
+        )
+    if isinstance(pattern, list):
+        return (
+            isinstance(term, list)
+            and len(term) == len(pattern)
+            and all(_instantiates(p, vars, subs, t) for p, t in zip(pattern, term))
+        )
+    if pattern in vars:
+        return subs[pattern] == term
+    return pattern == term
 
 
 def _process_match(rule, syms):
